@@ -114,7 +114,9 @@ pub fn gen16(rng: &mut Rng) -> Scn16 {
                     1 => Outcome::Err(0),
                     _ => match rng.below(10) {
                         0..=5 => Outcome::Err(0),
-                        6..=7 => Outcome::Err(1),
+                        6 => Outcome::Err(1),
+                        // an error that has a connection failure as its source()
+                        7 => Outcome::Err(7),
                         _ => Outcome::Ok,
                     },
                 };
@@ -143,7 +145,7 @@ pub fn valid16(s: &Scn16) -> bool {
     !s.reqs.is_empty()
         && s.reqs.len() <= 6
         && s.max_attempts.map(|m| m <= 64).unwrap_or(true)
-        && s.reqs.iter().all(|r| !r.script.is_empty() && r.script.len() <= 64 && r.gap_ms <= 1000 && r.abandon_after_ms.map(|a| a <= 200).unwrap_or(true) && r.script.iter().all(|b| b.lat_ms <= 20 && matches!(b.out, Outcome::Ok | Outcome::Err(0) | Outcome::Err(1))))
+        && s.reqs.iter().all(|r| !r.script.is_empty() && r.script.len() <= 64 && r.gap_ms <= 1000 && r.abandon_after_ms.map(|a| a <= 200).unwrap_or(true) && r.script.iter().all(|b| b.lat_ms <= 20 && matches!(b.out, Outcome::Ok | Outcome::Err(0) | Outcome::Err(1) | Outcome::Err(7))))
         && s.ready_fail_at.map(|k| k <= 16).unwrap_or(true)
         && s.observe_at_ms.len() <= 10
         && s.observe_at_ms.iter().all(|t| *t <= 2000)
@@ -155,7 +157,7 @@ pub fn valid16(s: &Scn16) -> bool {
             Policy::Custom(t) => !t.is_empty() && t.len() <= 64 && t.iter().all(|d| *d <= 100),
         }
         // an unbounded loop against a script that never succeeds would not end
-        && (s.max_attempts.is_some() || !s.retry_on_reconnect || matches!(s.policy, Policy::None) || s.reqs.iter().all(|r| r.script.iter().any(|b| b.out == Outcome::Ok || (s.predicate && b.out == Outcome::Err(1)))))
+        && (s.max_attempts.is_some() || !s.retry_on_reconnect || matches!(s.policy, Policy::None) || s.reqs.iter().all(|r| r.script.iter().any(|b| b.out == Outcome::Ok || (s.predicate && matches!(b.out, Outcome::Err(1) | Outcome::Err(7))))))
 }
 
 fn classify_display(s: &str) -> &'static str {
